@@ -7,12 +7,15 @@ Base/Utf8Proofs.vos Base/Utf8Proofs.vok Base/Utf8Proofs.required_vos: Base/Utf8P
 Capi/CapiCheck.vo Capi/CapiCheck.glob Capi/CapiCheck.v.beautified Capi/CapiCheck.required_vo: Capi/CapiCheck.v Gen/CapiEffects.vo Capi/LastError.vo
 Capi/CapiCheck.vio: Capi/CapiCheck.v Gen/CapiEffects.vio Capi/LastError.vio
 Capi/CapiCheck.vos Capi/CapiCheck.vok Capi/CapiCheck.required_vos: Capi/CapiCheck.v Gen/CapiEffects.vos Capi/LastError.vos
+Capi/Flags.vo Capi/Flags.glob Capi/Flags.v.beautified Capi/Flags.required_vo: Capi/Flags.v Gen/CapiEffects.vo
+Capi/Flags.vio: Capi/Flags.v Gen/CapiEffects.vio
+Capi/Flags.vos Capi/Flags.vok Capi/Flags.required_vos: Capi/Flags.v Gen/CapiEffects.vos
 Capi/LastError.vo Capi/LastError.glob Capi/LastError.v.beautified Capi/LastError.required_vo: Capi/LastError.v Gen/CapiEffects.vo
 Capi/LastError.vio: Capi/LastError.v Gen/CapiEffects.vio
 Capi/LastError.vos Capi/LastError.vok Capi/LastError.required_vos: Capi/LastError.v Gen/CapiEffects.vos
-Capi/LastErrorProofs.vo Capi/LastErrorProofs.glob Capi/LastErrorProofs.v.beautified Capi/LastErrorProofs.required_vo: Capi/LastErrorProofs.v Gen/CapiEffects.vo Capi/LastError.vo
-Capi/LastErrorProofs.vio: Capi/LastErrorProofs.v Gen/CapiEffects.vio Capi/LastError.vio
-Capi/LastErrorProofs.vos Capi/LastErrorProofs.vok Capi/LastErrorProofs.required_vos: Capi/LastErrorProofs.v Gen/CapiEffects.vos Capi/LastError.vos
+Capi/LastErrorProofs.vo Capi/LastErrorProofs.glob Capi/LastErrorProofs.v.beautified Capi/LastErrorProofs.required_vo: Capi/LastErrorProofs.v Gen/CapiEffects.vo Capi/LastError.vo Capi/Flags.vo
+Capi/LastErrorProofs.vio: Capi/LastErrorProofs.v Gen/CapiEffects.vio Capi/LastError.vio Capi/Flags.vio
+Capi/LastErrorProofs.vos Capi/LastErrorProofs.vok Capi/LastErrorProofs.required_vos: Capi/LastErrorProofs.v Gen/CapiEffects.vos Capi/LastError.vos Capi/Flags.vos
 Cli/Walk.vo Cli/Walk.glob Cli/Walk.v.beautified Cli/Walk.required_vo: Cli/Walk.v 
 Cli/Walk.vio: Cli/Walk.v 
 Cli/Walk.vos Cli/Walk.vok Cli/Walk.required_vos: Cli/Walk.v 
